@@ -107,6 +107,82 @@ def regroup(flat):
         else: cur.append(l)
     return cases
 
+# ---------------- derived matrices (KernelMatrix, Regularized, Modified, Precomputed, BlockMatrix2x2) ----------------
+def gen_derived(rng):
+    n = rng.randint(1, 6); dim = rng.randint(1, 3)
+    pts = [[rng.randint(-4, 4) for _ in range(dim)] for _ in range(n)]
+    diag = [rng.randint(0, 9) for _ in range(n)]; labs = [rng.randint(0, 2) for _ in range(n)]
+    ops = []
+    for _ in range(rng.randint(1, 14)):
+        x = rng.random()
+        if x < 0.4: ops.append("F %d %d" % (rng.randrange(n), rng.randrange(n)))
+        elif x < 0.55: ops.append("G %d %d" % (rng.randrange(2 * n), rng.randrange(2 * n)))
+        elif x < 0.75:
+            a = rng.randint(0, n); ops.append("Q %d %d %d" % (rng.randrange(n), a, rng.randint(a, n)))
+        else: ops.append("W %d %d" % (rng.randrange(n), rng.randint(1, n)))
+    flat = [x for p in pts for x in p]
+    impl = ["D %d %d | %s | %s | %s" % (n, dim, " ".join(map(str, flat)), " ".join(map(str, diag)), " ".join(map(str, labs)))] + ops
+    g = [sum(a * b for a, b in zip(x, y)) for x in pts for y in pts]
+    model = ["D %d | %s | %s | %s" % (n, " ".join(map(str, g)), " ".join(map(str, diag)), " ".join(map(str, labs)))] + ops
+    return impl, model, (pts, diag, labs)
+
+def monitor_derived(impl_case, out, info):
+    """direct kernel evaluation of the ORIGINAL examples sitting at each position"""
+    pts, diag, labs = info; n = len(pts)
+    k = lambda a, b: sum(x * y for x, y in zip(pts[a], pts[b]))
+    pos = list(range(n)); bpos = [i % n for i in range(2 * n)]
+    for idx, (l, o) in enumerate(zip(impl_case, out)):
+        t = l.split()
+        if t[0] == "F": i, j = int(t[1]), int(t[2]); pos[i], pos[j] = pos[j], pos[i]
+        if t[0] == "G": i, j = int(t[1]), int(t[2]); bpos[i], bpos[j] = bpos[j], bpos[i]
+        d = parse_state(o.split())
+        if t[0] in ("Q", "W"):
+            kk = int(t[1]); a, b = (int(t[2]), int(t[3])) if t[0] == "Q" else (0, int(t[2]))
+            if "!OOB" in o: return ["line %d `%s`: RegularizedKernelMatrix::row wrote outside the caller's buffer" % (idx, l)]
+            w = [k(pos[kk], pos[j]) + (diag[pos[kk]] if kk == j else 0) for j in range(a, b)]
+            got = [int(x) for x in d.get("ret", "").split(",")] if d.get("ret") else []
+            if got != w: return ["line %d `%s`: %s returns %s, direct evaluation gives %s" % (idx, l, "RegularizedKernelMatrix::row" if t[0] == "Q" else "CachedMatrix<RegularizedKernelMatrix>::row", got, w)]
+            continue
+        if "!CACHED" in o: return ["line %d: cached regularised row differs from the uncached one" % idx]
+        want = {"K": [k(pos[i], pos[j]) for i in range(n) for j in range(n)],
+                "R": [k(pos[i], pos[j]) + (diag[pos[i]] if i == j else 0) for i in range(n) for j in range(n)],
+                "M": [(2 if labs[pos[i]] == labs[pos[j]] else -1) * k(pos[i], pos[j]) for i in range(n) for j in range(n)],
+                "B": [k(bpos[i], bpos[j]) for i in range(2 * n) for j in range(2 * n)]}
+        want["P"] = want["K"]; want["rowR"] = want["R"][(n - 1) * n:]
+        names = {"K": "KernelMatrix", "R": "RegularizedKernelMatrix", "M": "ModifiedKernelMatrix", "P": "PrecomputedMatrix", "B": "BlockMatrix2x2", "rowR": "RegularizedKernelMatrix::row"}
+        for key, w in want.items():
+            try: got = [int(x) for x in d[key].split(",")]
+            except Exception: return ["line %d: no output for %s" % (idx, names[key])]
+            if got != w: return ["line %d `%s`: %s entries differ from direct kernel evaluation under the current order" % (idx, l, names[key])]
+    return []
+
+def derived_stream(ck, n):
+    model = extract_model("C09D", "C09DExtract.v", "c09d_driver.ml")
+    exe, err = cxx_build("c09_derived", [os.path.join(ROOT, "harness", "c09_derived.cpp")])
+    if exe is None:
+        ck.oblige("derived-matrix harness builds against /repo", False, err); return 0
+    tmpd = os.path.join(BUILD, "tmp", PID, "derived"); os.makedirs(tmpd, exist_ok=True)
+    cases = [gen_derived(ck.rng) for _ in range(n)]
+    io = run_cases(exe, [c[0] for c in cases], os.path.join(tmpd, "impl.txt"))
+    mo = run_cases(model, [c[1] for c in cases], os.path.join(tmpd, "model.txt"))
+    nmon = ndis = 0
+    for ci, (ic, mc, info) in enumerate(cases):
+        (b, rcb, eb), (a, rca, ea) = io[ci], mo[ci]
+        msgs = ["implementation crashed rc=%s" % rcb] if rcb != 0 else monitor_derived(ic, b, info)
+        if msgs:
+            nmon += 1
+            if nmon <= 2:
+                cf = ck.write_replay("derived_%d.txt" % ci, "\n".join(ic) + "\n")
+                ck.violation("derived:" + re.sub(r"line \d+ `[^`]*`: ", "", msgs[0]), {"case_file": cf, "case": ic, "implementation_output": b, "model_output": a, "monitor": msgs}, "spec monitor fails on the implementation: " + msgs[0])
+        elif a != b: ndis += 1
+    if ndis and not nmon:
+        ci = [i for i in range(len(cases)) if mo[i][0] != io[i][0]][0]
+        ck.violation("correspondence-derived", {"case": cases[ci][0], "model_output": mo[ci][0], "implementation_output": io[ci][0]},
+                     "correspondence C09Derived vs derived kernel matrices no longer checks; monitor passes on all explored inputs", no_input=True)
+    ck.oblige("correspondence derived matrices model=implementation on %d flip histories" % n, nmon == 0 and ndis == 0)
+    ck.notes["derived_cases"] = n
+    return sum(len(c[0]) for c in cases)
+
 def main():
     ck = Check(PID)
     ck.trusted = DEFAULT_TRUSTED + ["modelled not verified: real new[]/delete[] behaviour, boost::intrusive::list (its observable order is compared through listIndex)"]
@@ -147,7 +223,7 @@ def main():
             if "lines" in d:
                 if prev is not None and l[0] in "RT" and int(d["lines"]) < prev + (1 if l[0] == "R" else 0): evict += 1
                 prev = int(d["lines"])
-    ck.cov["evaluations"] = len(flat)
+    ck.cov["evaluations"] = len(flat) + (derived_stream(ck, 300 if not big else 3000) if not ck.replay else 0)
     ck.cov["distinct_nontrivial"] = len(set(" ".join(c) for c in cases if len(c) > 3))
     ck.cov["rule"] = "random histories of CachedMatrix/LRUCache operations (row, const row, flip, setMaxCachedIndex, clear, truncate, mark) on n<=8 (16 in thorough) variables, capacities 1..n^2+3, filtered by the model's precondition check wf_op; non-trivial = at least 3 operations; distinct = distinct operation strings"
     ck.cov["samples"] = cases[:2]
